@@ -53,6 +53,8 @@ def variants(toks, pairs):
     for g in range(n + 1):
         for name, d in _directives():
             yield (f"dir{g}:{name}", base, {g: [d]})
+            # the same directive when every token sits alone on its line
+            yield (f"dirnl{g}:{name}", ["\n"] * (n - 1), {g: [d]})
     if pairs:
         for g1, g2 in itertools.combinations(range(n - 1), 2):
             for s1, s2 in (("\n", "\n"), ("\n", "\t"), ("\t", "\n")):
